@@ -727,6 +727,26 @@ fn c09(ctx: &Ctx, knobs: &GenKnobs, calls: &[CallRec], exchanges: &[Exchange]) {
         }
         // positive half: after successful decoding the declared-safe arguments are all there
         let undamaged = !damaging(&ex.req_fired);
+        // ... and a request nothing was done to decodes: every declared-safe argument of a valid,
+        // deliverable request must end up recorded, whatever this thread or service handled before
+        if undamaged
+            && ex.routed == Some(call.ep)
+            && !matches!(call.result, CallResult::Cancelled)
+            && header_deliverable(call, meta)
+            && within_limit(exchanges, ex.call as usize, meta)
+            && meta.args.iter().any(|a| a.declared_safe())
+        {
+            if let ServerOut::Err(e) = &ex.server {
+                ctx.violation(
+                    "C09",
+                    "safe_args_not_recorded:valid_request_refused",
+                    format!(
+                        "{}: nothing was done to this request, yet the endpoint refused it ({} {:?}) and its declared-safe arguments were not all recorded: {:?}",
+                        who, e.code, e.safe_params, ex.safe_params
+                    ),
+                );
+            }
+        }
         if undamaged && matches!(ex.server, ServerOut::Ok(_)) && ex.routed == Some(call.ep) {
             let sp = ex.safe_params.clone().unwrap_or_default();
             for a in meta.args.iter().filter(|a| a.declared_safe()) {
@@ -903,6 +923,8 @@ fn c06(ctx: &Ctx, calls: &[CallRec], exchanges: &[Exchange], records: &[Record],
                             Want::Reject("unknown_field")
                         } else if ex.req_fired.iter().any(|f| f.kind == FK::TypeConfusion) {
                             Want::Reject("wrong_type")
+                        } else if ex.req_fired.iter().any(|f| f.kind == FK::UnionMismatch) {
+                            Want::Reject("union_tag_and_member_disagree")
                         } else if all_transparent {
                             Want::Accept
                         } else {
@@ -1026,6 +1048,8 @@ fn c18(ctx: &Ctx, calls: &[CallRec], exchanges: &[Exchange], records: &[Record],
                 } else {
                     WantC::Err("malformed")
                 }
+            } else if ex.resp_fired.iter().any(|f| f.kind == FK::UnionMismatch) {
+                WantC::Err("union_tag_and_member_disagree")
             } else if all_transparent {
                 WantC::OkHandler
             } else {
